@@ -54,7 +54,7 @@ vars == <<ctx, rp, slash, host, query>>
 Init == /\ ctx \in Contexts /\ rp \in ResourcePaths
         /\ slash \in BOOLEAN          \* base URL ends with "/"
         /\ host \in BOOLEAN           \* base URL has scheme and host
-        /\ query \in {"none", "plain", "pct"}
+        /\ query \in {"none", "plain", "pct", "empty"}     \* empty: a query that is present but empty (the URL still ends in "?")
 Next == UNCHANGED vars
 Spec == Init /\ [][Next]_vars
 
